@@ -1114,7 +1114,8 @@ class CompositeEnvelope:
                         os = s.envelope.polarization
                     elif isinstance(s, Polarization):
                         os = s.envelope.fock
-                    if os not in state_list:
+                    # Compare by identity: Fock states compare equal by value
+                    if not any(os is listed for listed in state_list):
                         state_list.append(os)
 
         # If the state resides in the BaseState or Envelope measure there
